@@ -68,7 +68,7 @@ def make_case(family, i, rng, tier):
     case = {'items': items, 'auto_pong': rng.random() < 0.7}
     if rng.random() < 0.4:
         code = rng.choice([1000, 1001, 1002, 1003, 1007, 1008, 1009, 1010,
-                           1011, 3000, 4999, None])
+                           1011, 1012, 1013, 3000, 3999, 4000, 4999, None])
         reason = S.rand_text(rng, rng.choice([0, 0, 5, 40])) \
             if code is not None else u''
         while len(reason.encode('utf-8')) > 123:
